@@ -1,4 +1,5 @@
 import PqV.Lemmas.Dataset
+import PqV.Lemmas.DatasetComplete
 /-!
 # C19 — an append interrupted before its metadata update leaves the old dataset intact
 
@@ -54,6 +55,25 @@ theorem crash_before_meta (partitioned : Bool) (fs : FS) (old : List RgRef) (nd 
 theorem parts_first_summary_last (partitioned : Bool) (old : List RgRef) (nd : NewData) :
     appendOps partitioned old nd
       = dataOps partitioned (maxPart old) 0 nd ++ metaOps (old ++ newRefs (maxPart old) 0 nd) := rfl
+
+/-- **a completed append**: once every operation has taken effect a fresh open reads the previous
+    rows followed by the new rows, in order (each incoming row group's pieces go to distinct directories) -/
+theorem completed_append_reads_old_then_new (partitioned : Bool) (fs : FS) (old : List RgRef) (nd : NewData) (oldRows : List Nat)
+    (hold : readRefs fs old = some oldRows) (hok : NdOk nd) :
+    readDS (runOps fs (appendOps partitioned old nd)) = some (oldRows ++ rowsOf (newRefs (maxPart old) 0 nd)) :=
+  append_complete partitioned fs old nd oldRows hold hok
+
+/-- the model is explicit about the one window the property does not cover: while `_metadata` itself
+    is being rewritten ('wb' truncates at open) the dataset cannot be opened at all -/
+theorem metadata_window_unreadable (partitioned : Bool) (fs : FS) (old : List RgRef) (nd : NewData) :
+    readDS (runOps fs ((appendOps partitioned old nd).take ((dataOps partitioned (maxPart old) 0 nd).length + 1))) = none := by
+  have : (appendOps partitioned old nd).take ((dataOps partitioned (maxPart old) 0 nd).length + 1)
+      = dataOps partitioned (maxPart old) 0 nd ++ [.openW .pmeta] := by
+    unfold appendOps
+    rw [List.take_append, List.take_of_length_le (by omega)]
+    simp [metaOps]
+  rw [this, runOps_append]
+  simp [runOps, applyOp, readDS, get_put_eq]
 
 -- non-vacuity: a two-part dataset, an append of two row groups, crash after the first new part
 example :
